@@ -118,9 +118,14 @@ package engine
 //@   requires sockLive(s)
 //@   modifies *
 //@   ensures [C03.clearkeeps] s.ReadyState() == old(s.ReadyState())
+//@   ensures s.Transport() == old(s.Transport())
 //@   ensures [C08.clearcloses] calls(transports.Transport.Close) == 1 && calls(utils.ClearTimeout) == 1
 //@ func (*socket).setTransport(transport)
+//@   props C08
+//@   requires sockOK(s) && transport != nil
 //@   modifies *
+//@   ensures [C08.settransport] s.Transport() == transport && s.ReadyState() == old(s.ReadyState())
+//@   ensures [C08.setlisteners] calls(types.EventEmitter.On) == 3 && calls(types.EventEmitter.Once) == 2 && calls((*types.Slice).Push) == 1
 //@ func (*socket).resetPingTimeout()
 //@   modifies *
 //@ func (*socket).schedulePing()
@@ -238,6 +243,100 @@ package engine
 //@   ensures [C18.onegroup] calls((*types.Slice).Shift) == 1
 //@   ensures [C18.cbonce]   ret((*types.Slice).Shift, 1, 1) == nil ==> calls(fn) == len(ret((*types.Slice).Shift, 1, 0))
 //@   ensures [C18.nogroup]  ret((*types.Slice).Shift, 1, 1) != nil ==> calls(fn) == 0
+
+// ---- transport upgrade (C08) ----------------------------------------------------------------------------------
+// MaybeUpgrade only arms the upgrade: flag, timeout, listeners on the candidate and on the session. It neither touches
+// the session's state or transport nor closes anything.
+//@ spec upgOK(s *socket, t transports.Transport) bool = sockLive(s) && iface(t) != s.EventEmitter   // the candidate transport is not the session object
+//@ func (*socket).MaybeUpgrade(transport)
+//@   props C08
+//@   requires upgOK(s, transport) && transport != nil
+//@   modifies *
+//@   ensures [C08.mu.flag]      calls((*sync/atomic.Bool).Store) == 1 && arg((*sync/atomic.Bool).Store, 1, val)
+//@   ensures [C08.mu.timeout]   calls(utils.SetTimeout) == 1 && arg(utils.SetTimeout, 1, sleep) == s.server.Opts().UpgradeTimeout()
+//@   ensures [C08.mu.lpacket]   calls(types.EventEmitter.On) == 1 && arg(types.EventEmitter.On, 1, evt) == "packet" && arg(types.EventEmitter.On, 1, this) == iface(transport)
+//@   ensures [C08.mu.lclose]    calls(types.EventEmitter.Once) == 3 && arg(types.EventEmitter.Once, 1, evt) == "close" && arg(types.EventEmitter.Once, 1, this) == iface(transport)
+//@   ensures [C08.mu.lerror]    arg(types.EventEmitter.Once, 2, evt) == "error" && arg(types.EventEmitter.Once, 2, this) == iface(transport)
+//@   ensures [C08.mu.lsession]  arg(types.EventEmitter.Once, 3, evt) == "close" && arg(types.EventEmitter.Once, 3, this) == s.EventEmitter
+//@   ensures [C08.mu.sessionkept] calls((*socket).OnClose) == 0 && calls((*socket).setTransport) == 0 && calls((*socket).clearTransport) == 0 && calls(transports.Transport.Close) == 0 && calls(transports.Transport.Send) == 0
+//@   callsite (*sync/atomic.Bool).Store#1
+//@     assert [C08.mu.flagfield] isfield($this, s, upgrading)
+
+// the candidate's packet listener: probe ping -> probe pong on the candidate; upgrade packet on a live session -> switch;
+// anything else -> the candidate is dropped and the session is left alone
+//@ func (*socket).MaybeUpgrade.onPacket(datas)
+//@   props C08
+//@   requires upgOK(s, transport) && transport != nil && len(datas) >= 1 && typeis(datas[0], *packet.Packet) && unbox(datas[0], *packet.Packet) != nil
+//@   modifies *
+//@   let data    = old(unbox(datas[0], *packet.Packet))
+//@   let ptype   = old(unbox(datas[0], *packet.Packet).Type)
+//@   let cand    = old(transport)
+//@   let isProbe = ptype == packet.PING && ret((*strings.Builder).String, 1) == "probe"
+//@   let isUpgrade = !isProbe && ptype == packet.UPGRADE && ret((*socket).ReadyState, 1) != "closed"
+//@   ensures [C08.probe.pong]  isProbe ==> calls(transports.Transport.Send) == 1 && arg(transports.Transport.Send, 1, this) == cand && len(arg(transports.Transport.Send, 1, packets)) == 1 && arg(transports.Transport.Send, 1, packets)[0].Type == packet.PONG
+//@   ensures [C08.probe.event] isProbe ==> emitted(s.EventEmitter, "upgrading") == 1 && calls(utils.SetInterval) == 1 && calls(utils.ClearInterval) == 1 && before(utils.ClearInterval, 1, utils.SetInterval, 1)
+//@   ensures [C08.probe.kept]  isProbe ==> calls(cleanup) == 0 && calls((*socket).setTransport) == 0 && calls((*socket).clearTransport) == 0 && calls((*socket).OnClose) == 0 && calls(transports.Transport.Close) == 0 && calls(transports.Transport.Discard) == 0
+//@   ensures [C08.switch]      isUpgrade ==> calls(cleanup) == 1 && calls(transports.Transport.Discard) == 1 && calls((*socket).clearTransport) == 1 && calls((*socket).setTransport) == 1 && arg((*socket).setTransport, 1, transport) == cand && emitted(s.EventEmitter, "upgrade") == 1 && calls((*socket).flush) == 1
+//@   ensures [C08.switch.order] isUpgrade ==> before(cleanup, 1, transports.Transport.Discard, 1) && before(transports.Transport.Discard, 1, (*socket).clearTransport, 1) && before((*socket).clearTransport, 1, (*socket).setTransport, 1) && before((*socket).setTransport, 1, (*socket).flush, 1)
+//@   ensures [C08.switch.once] isUpgrade ==> ncalls((*sync/atomic.Bool).Store, val) == 1
+//@   ensures [C08.reject]      !isProbe && !isUpgrade ==> calls(cleanup) == 1 && calls(transports.Transport.Close) == 1 && arg(transports.Transport.Close, 1, this) == cand && before(cleanup, 1, transports.Transport.Close, 1)
+//@   ensures [C08.reject.kept] !isProbe && !isUpgrade ==> calls((*socket).setTransport) == 0 && calls((*socket).clearTransport) == 0 && calls((*socket).OnClose) == 0 && calls(transports.Transport.Discard) == 0 && calls((*socket).flush) == 0 && calls((*sync/atomic.Bool).Store) == 0 && emitted(s.EventEmitter, "upgrade") == 0
+//@   callsite transports.Transport.Discard#1
+//@     assert [C08.switch.discardold] $this == old(s.Transport())
+
+// cleanup: the upgrade attempt is over - flag cleared, both timers cleared, the three candidate listeners and the session
+// listener removed; nothing else
+//@ func (*socket).MaybeUpgrade.cleanup()
+//@   props C08
+//@   requires upgOK(s, transport)
+//@   modifies s.upgrading
+//@   ensures [C08.cleanup.flag]   calls((*sync/atomic.Bool).Store) == 1 && !arg((*sync/atomic.Bool).Store, 1, val)
+//@   ensures [C08.cleanup.timers] calls(utils.ClearInterval) == 1 && calls(utils.ClearTimeout) == 1
+//@   ensures [C08.cleanup.listeners] old(transport) != nil ==> ncalls(types.EventEmitter.RemoveListener, this == iface(old(transport))) == 3
+//@   ensures [C08.cleanup.session] ncalls(types.EventEmitter.RemoveListener, this == s.EventEmitter && evt == "close") == 1
+//@   ensures [C08.cleanup.only]   calls((*socket).OnClose) == 0 && calls(transports.Transport.Close) == 0 && calls((*socket).setTransport) == 0 && calls((*socket).clearTransport) == 0 && transport == old(transport)
+//@   callsite (*sync/atomic.Bool).Store#1
+//@     assert [C08.cleanup.flagfield] isfield($this, s, upgrading)
+
+// candidate error / candidate close / session close: the attempt is cleaned up and the candidate closed once; the session
+// is not closed by it
+//@ func (*socket).MaybeUpgrade.onError(err)
+//@   props C08
+//@   requires upgOK(s, transport) && len(err) >= 1
+//@   modifies *
+//@   ensures [C08.fail.cleanup] calls(cleanup) == 1
+//@   ensures [C08.fail.close]   old(transport) != nil ==> calls(transports.Transport.Close) == 1 && arg(transports.Transport.Close, 1, this) == old(transport) && transport == nil
+//@   ensures [C08.fail.idem]    old(transport) == nil ==> calls(transports.Transport.Close) == 0
+//@   ensures [C08.fail.kept]    calls((*socket).OnClose) == 0 && calls((*socket).setTransport) == 0 && calls((*socket).clearTransport) == 0 && calls(transports.Transport.Discard) == 0
+
+//@ func (*socket).MaybeUpgrade.onTransportClose(arg0)
+//@   props C08
+//@   requires upgOK(s, transport)
+//@   modifies *
+//@   ensures [C08.tclose] calls(onError) == 1
+//@ func (*socket).MaybeUpgrade.onClose(arg0)
+//@   props C08
+//@   requires upgOK(s, transport)
+//@   modifies *
+//@   ensures [C08.sclose] calls(onError) == 1
+
+// the upgrade timeout: the attempt is cleaned up and a still-open candidate is closed; the session is left alone
+//@ func (*socket).MaybeUpgrade$7()
+//@   props C08
+//@   requires upgOK(s, transport)
+//@   modifies *
+//@   ensures [C08.timeout.cleanup] calls(cleanup) == 1
+//@   ensures [C08.timeout.close]   calls(transports.Transport.Close) <= 1 && (calls(transports.Transport.Close) == 1 ==> arg(transports.Transport.Close, 1, this) == old(transport) && ret(transports.Transport.ReadyState, 1) == "open" && before(cleanup, 1, transports.Transport.Close, 1))
+//@   ensures [C08.timeout.open]    old(transport) != nil && calls(transports.Transport.ReadyState) == 1 && ret(transports.Transport.ReadyState, 1) == "open" ==> calls(transports.Transport.Close) == 1
+//@   ensures [C08.timeout.kept]    calls((*socket).OnClose) == 0 && calls((*socket).setTransport) == 0 && calls((*socket).clearTransport) == 0 && calls(transports.Transport.Discard) == 0
+
+// we force a polling cycle to ensure a fast upgrade: a NOOP goes to the current transport only when it is a writable poll
+//@ func (*socket).MaybeUpgrade.check()
+//@   props C08
+//@   requires sockLive(s)
+//@   modifies *
+//@   ensures [C08.check] calls(transports.Transport.Send) <= 1 && (calls(transports.Transport.Send) == 1 ==> old(s.Transport().Name()) == "polling" && old(s.Transport().Writable()) && arg(transports.Transport.Send, 1, this) == old(s.Transport()) && len(arg(transports.Transport.Send, 1, packets)) == 1 && arg(transports.Transport.Send, 1, packets)[0].Type == packet.NOOP)
+//@   ensures [C08.check.only] calls((*socket).OnClose) == 0 && calls(transports.Transport.Close) == 0 && calls((*socket).setTransport) == 0
 
 // ---- handshake (C04 registry, C05 rejection branches, C06 one session, C10 limit copied) ---------------
 //@ func NewSocket(id, server, transport, ctx, protocol)
